@@ -5,30 +5,34 @@ import json, os, subprocess, sys, time
 def sh(cmd, **kw):
     return subprocess.run(cmd, shell=True, capture_output=True, text=True, **kw)
 
+REPO = os.environ.get("VERIF_REPO", "/repo")
+
+
 def main():
     d = sys.argv[1]; props = [a for a in sys.argv[2:] if not a.startswith("--")]; confirm = "--confirm" in sys.argv
     patch = os.path.join(d, "patch.diff")
-    assert sh("git -C /repo status --porcelain").stdout.strip() == "", "/repo not clean"
+    assert sh(f"git -C {REPO} status --porcelain").stdout.strip() == "", f"{REPO} not clean"
     res = {"seed": d, "checks": {}}
     if confirm:
-        r = sh(f"PYTHONPATH=/repo /venv/bin/python {d}/demo.py"); res["demo_clean_rc"] = r.returncode
+        r = sh(f"PYTHONPATH={REPO} /venv/bin/python {d}/demo.py"); res["demo_clean_rc"] = r.returncode
     # evidence files belong to runs on the unchanged tree: keep them aside while the patched tree is checked
     sh("rm -rf /verif/.cache/evidence.keep && mkdir -p /verif/.cache && cp -r /verif/evidence /verif/.cache/evidence.keep")
-    r = sh(f"git -C /repo apply {patch}")
+    r = sh(f"git -C {REPO} apply {patch}")
     if r.returncode != 0:
         print("patch does not apply:", r.stderr); sys.exit(2)
     try:
         if confirm:
-            r = sh(f"PYTHONPATH=/repo /venv/bin/python {d}/demo.py"); res["demo_patched_rc"] = r.returncode
-            r = sh("cd /repo && /venv/bin/python -m pytest -q -p no:cacheprovider -x -n 16 tests 2>&1 | tail -1"); res["suite_patched"] = r.stdout.strip()
+            r = sh(f"PYTHONPATH={REPO} /venv/bin/python {d}/demo.py"); res["demo_patched_rc"] = r.returncode
+            r = sh(f"cd {REPO} && /venv/bin/python -m pytest -q -p no:cacheprovider -x -n 16 tests 2>&1 | tail -1"); res["suite_patched"] = r.stdout.strip()
         for p in props:
             t = time.time()
             r = sh(f"cd /verif && ./check {p} --tier quick")
             viol = [l for l in r.stdout.splitlines() if l.startswith("VIOLATION")]
-            res["checks"][p] = {"exit": r.returncode, "violations": len(viol), "first": viol[:2], "tail": r.stdout.strip().splitlines()[-1:], "wall": round(time.time() - t, 1),
+            res["checks"][p] = {"exit": r.returncode, "violations": len(viol),
+                                "by_proof": len([l for l in viol if "bounded" not in l]), "by_bounded_run": len([l for l in viol if "bounded" in l]), "first": viol[:2], "tail": r.stdout.strip().splitlines()[-1:], "wall": round(time.time() - t, 1),
                                 "engine_errors": [l for l in r.stdout.splitlines() if l.startswith("ENGINE-ERROR")][:2]}
     finally:
-        sh("git -C /repo checkout -- . && git -C /repo clean -fdq ofxtools")
+        sh(f"git -C {REPO} checkout -- . && git -C {REPO} clean -fdq ofxtools")
         sh("rm -rf /verif/evidence && cp -r /verif/.cache/evidence.keep /verif/evidence")
     print(json.dumps(res, indent=1))
 
